@@ -8,7 +8,9 @@ def amOf : String → Option AM
   | "client_secret_basic" => some .secretBasic | "client_secret_post" => some .secretPost | "client_secret_jwt" => some .secretJwt
   | "private_key_jwt" => some .privateKeyJwt | _ => none
 def fmtOf : String → Option Fmt | "opaque" => some .opaque | "jwt" => some .jwt | _ => none
-def sigOf : String → Option SigAlg | "RS256" => some .rs256 | "ES256" => some .es256 | "HS256" => some .hs256 | "PS256" => some .ps256 | _ => none
+def sigOf : String → Option SigAlg
+  | "RS256" => some .rs256 | "ES256" => some .es256 | "HS256" => some .hs256 | "PS256" => some .ps256
+  | "HS384" => some .hs384 | "HS512" => some .hs512 | "RS384" => some .rs384 | _ => none
 def encOf : String → Option Enc | "-" => some .none | "RSA-OAEP" => some .rsaOaep | "ECDH-ES" => some .ecdhEs | _ => none
 def uiOf : String → Option UI | "json" => some .json | "RS256" => some .rs256 | "ES256" => some .es256 | "enc" => some .enc | _ => none
 def reqOf : String → Option Req | "plain" => some .plain | "request" => some .byValue | "request_uri" => some .byReference | "par" => some .pushed | _ => none
